@@ -95,6 +95,24 @@ Theorem C13_string_declarable : forall v,
 Proof. exact (fun v => conj (string_declarable v) (src_escape_lexable v)). Qed.
 Print Assumptions C13_string_declarable.
 
+(* the supported escapes and the boolean spellings mean what they conventionally mean: the lexer's
+   escape loop (with the translated Lexer.escaping_chars) is the loop over the standard table
+   (t TAB, r CR, n LF; backslash, single and double quote stand for themselves); true / yes are true,
+   false / no are false *)
+Theorem C13_escapes_standard : forall raw,
+  lex_string raw = match spec_unescape raw [] with
+                   | LexOk v => Ok (VStr v)
+                   | LexInvalidEscape => Err EInvalidEscape
+                   | LexIndexError => Err ECrashIndex
+                   end.
+Proof. exact lex_string_standard. Qed.
+Print Assumptions C13_escapes_standard.
+
+Theorem C13_bool_spellings : forall sp,
+  lex_bool sp = match spec_bool sp with Some b => Ok (VBool b) | None => Err EGrammar end.
+Proof. exact bool_spellings_standard. Qed.
+Print Assumptions C13_bool_spellings.
+
 (* emitted verbatim between quotes, a string is read back as itself when it contains none of the
    characters the target language treats specially (per language, and for all three at once) *)
 Theorem C13_string_literal_c : forall s, safe_string_in LC s = true ->
